@@ -41,6 +41,14 @@ func ZZ_C27() {
 		cur = append(cur, l)
 		put(&zzNodeRec{l.signer, l.payee, zzHash(), nextTs(), l.state})
 	}
+	if vr.Bool() {
+		// an earlier candidate that pledged and was cancelled (two records)
+		l := &live{newKey(), newKey(), common.NodeStateCancelled}
+		cur = append(cur, l)
+		put(&zzNodeRec{l.signer, l.payee, zzHash(), nextTs(), common.NodeStatePledging})
+		put(&zzNodeRec{l.signer, l.payee, zzHash(), nextTs(), common.NodeStateCancelled})
+		vr.Cover("history-has-a-cancelled-node")
+	}
 	maxEv := 1
 	if vr.Tier() > 0 {
 		maxEv = 2
